@@ -140,7 +140,11 @@ PARSE_TEXTS = [">=2,<1", ">1,<1", ">=1,<=1", "==1.0,!=1.0", "!=1.0,!=1.0", "<1||
                "<1||<2", ">=3||>=1,<2", "==1.*||==2.*", "!=1.*,!=2.*", "~=1.4,!=1.5.*", "<empty>||<empty>", "||", ">=1||<empty>", "==1.0||==1.0.0",
                ">=1.0,>=1.0.0", ">=1,<2,>=1.5", "<2||>=1.5,<3||>=2.5", ">1||>=1", "<=1||<1", "!=1||==1", "==1.5||!=1.5", ">=1,<2||>=2", "<3,>=1||<1",
                "~=1.4||~=1.5", "==1.4.*||==1.5.*||==1.6.*", ">=1!0||<1!0", "<1.0a1||>=1.0a1",
-               ">=2,<1,!=1.5", "==1.0,==2.0,!=1.0.*", "<1,>=2,~=3.1", ">=1,<=1,!=1", "<1||>=2,<3||>=3", "<=1||>=2,<3||>=4", "<1||>1,<2||>2,<3||>3"]
+               ">=2,<1,!=1.5", "==1.0,==2.0,!=1.0.*", "<1,>=2,~=3.1", ">=1,<=1,!=1", "<1||>=2,<3||>=3", "<=1||>=2,<3||>=4", "<1||>1,<2||>2,<3||>3",
+               # equal-as-versions but differently spelled operands parsed one after the other (an equality-keyed memo must not mix them up;
+               # the interpreter models functools.lru_cache / cache)
+               "!=1.*", "!=1.0.*", "==1.*", "==1.0.*", "~=1.4", "~=1.4.0", "!=2.0.*", "!=2.*", "==3.0.0.*", "==3.*", "~=2.0.0", "~=2.0", ">=1.0", ">=1.0.0",
+               "!=1.5.0", "!=1.5", "==1.4.0", "==1.4"]
 PARSE_CANDS = ["0.5", "1", "1.0.1", "1.4", "1.4.5", "1.5", "1.5.3", "1.6", "1.9", "2", "2.5", "2.7", "3", "4", "1!0", "1!1"]
 
 
